@@ -41,7 +41,8 @@ fn any_cfg(max_steps: u64, max_loops: u64) -> BoxedStrategy<OptCfg> {
         prop_oneof![2 => Just(0.), 2 => (-3.0..1.0f64).prop_map(|e| 10f64.powf(e))],
         prop_oneof![Just(None), Just(Some(0.)), Just(Some(1e-3)), Just(Some(0.1))],
         prop_oneof![Just(None), Just(Some(0.)), Just(Some(0.1)), Just(Some(0.5))],
-        prop_oneof![6 => (-3.0..0.0f64).prop_map(|e| 10f64.powf(e)), 3 => Just(1.0), 1 => Just(2.5)],
+        // the last class: moves of a few units in the last place (added for seeded change C06-5)
+        prop_oneof![6 => (-3.0..0.0f64).prop_map(|e| 10f64.powf(e)), 3 => Just(1.0), 1 => Just(2.5), 2 => (-17.0..-13.0f64).prop_map(|e| 10f64.powf(e))],
         any::<u64>(),
         prop_oneof![3 => Just(None), 1 => Just(Some(0.)), 1 => Just(Some(1e-6)), 1 => Just(Some(1e3))],
     )
